@@ -115,7 +115,7 @@ def step(h, tier):
 # ---------------------------------------------------------------------------------------------------------------------
 def shards(tier):
     from mc.props import c18
-    return [s for s in c18.shards(tier) if s.get('kind') == 'lf' and s['mode'] == 'distinct'] + [{'kind': 'many-copies'}, {'kind': 'reidentify'}, {'kind': 'kinds-across-sets'}]
+    return [s for s in c18.shards(tier) if s.get('kind') == 'lf' and s['mode'] == 'distinct'] + [{'kind': 'many-copies'}, {'kind': 'reidentify'}, {'kind': 'kinds-across-sets'}, {'kind': 'caller-lists'}]
 
 
 def cases(shard, tier):
@@ -124,6 +124,14 @@ def cases(shard, tier):
         for n in (3, 129, 130, 256):
             for kind in ('zone', 'channel'):
                 yield {'many_copies': n, 'kind': kind}
+        return
+    if shard.get('kind') == 'caller-lists':
+        # the caller keeps ONE list, passes it as the value of a reference attribute, extends it and passes it again:
+        # every object refers to what the list held when it was passed
+        for attr in CALLER_LIST_ATTRS:
+            for route in ('kw', 'as', 'later'):
+                for steps in (2, 3):
+                    yield {'caller_list': attr, 'route': route, 'steps': steps}
         return
     if shard.get('kind') == 'kinds-across-sets':
         # for EVERY object kind: equally named objects in two differently named sets of the kind (each add_* method has
@@ -152,6 +160,50 @@ def cases(shard, tier):
 
 
 REIDENT_TARGETS = ['A', 'C', 'F', 'G', 'LN', 'N', 'P', 'T', 'Z']
+
+
+# (kind of the referring object, keyword, kind of the referred objects)
+CALLER_LIST_ATTRS = ['tool.channels', 'parameter.zones', 'splice.input_channels', 'group.group_list', 'group.object_list',
+                     'calibration.calibrated_channels', 'process.input_channels', 'computation.zones', 'tool.parameters']
+
+
+def caller_list_spec(case):
+    kind, kw = case['caller_list'].split('.')
+    ops = [S.op_lf(), S.op_origin(), S.op_origin('O5', 'SECOND-ORIGIN', origin_reference=5)]
+    # same-named targets with different copy numbers / origins, so that a wrong reference is also a wrong identity
+    targets = {'channels': 'channel', 'input_channels': 'channel', 'calibrated_channels': 'channel', 'zones': 'zone',
+               'group_list': 'group', 'object_list': 'zone', 'parameters': 'parameter'}[kw]
+    th = []
+    for j in range(4):
+        extra = {'data': S.arr_spec('uint8', [2], [j, j + 1])} if targets == 'channel' else {}
+        if targets == 'parameter':
+            extra = {'values': [float(j)]}
+        if j == 3:
+            extra['origin_reference'] = 5
+        ops.append(S.op_add(targets, f'T{j}', 'SAME' if j != 1 else 'OTHER', **extra))
+        th.append(f'T{j}')
+    if targets == 'channel':
+        for j in range(4):
+            ops.append(S.op_add('frame', f'F{j}', f'FRAME-{j}', channels=[{'$ref': f'T{j}'}]))
+    else:
+        ops.append(S.op_add('channel', 'C', 'CHAN', data=S.arr_spec('uint8', [2], [1, 2])))
+        ops.append(S.op_add('frame', 'F', 'FRAME', channels=[{'$ref': 'C'}]))
+    shared = {'$shared_list': 'L', 'init': [{'$ref': th[0]}]}
+    for step in range(case['steps']):
+        if step:
+            ops.append({'op': 'list_append', 'key': 'L', 'value': {'$ref': th[step + 1]}})
+        h = f'R{step}'
+        extra = {'values': [1.0 + k for k in range(step + 1)]} if kind in ('parameter', 'computation') and kw == 'zones' else {}
+        if kind == 'splice':
+            extra = {'output_channel': {'$ref': th[1]}}
+        if case['route'] == 'kw':
+            ops.append(S.op_add(kind, h, f'REFERRER-{step}', **dict(extra, **{kw: shared})))
+        elif case['route'] == 'as':
+            ops.append(S.op_add(kind, h, f'REFERRER-{step}', **dict(extra, **{kw: {'$as': {'value': shared}}})))
+        else:
+            ops.append(S.op_add(kind, h, f'REFERRER-{step}', **extra))
+            ops.append({'op': 'set', 'h': h, 'attr': kw, 'part': 'value', 'value': shared})
+    return {'sul': {'max_record_length': 8192}, 'ops': ops, 'write': {}}
 
 
 def across_sets_spec(case):
@@ -286,7 +338,10 @@ def run_case(case):
     from mc.props import c18
     if 'reidentify' in case:
         return run_reidentify(case)
-    if 'across_sets' in case:
+    if 'caller_list' in case:
+        sp = caller_list_spec(case)
+        brief, fam = case, 'caller-list'
+    elif 'across_sets' in case:
         sp = across_sets_spec(case)
         brief, fam = case, 'across-sets'
     elif 'many_copies' in case:
@@ -303,7 +358,7 @@ def run_case(case):
         return Outcome(f'{fam}:raised', viol, True)
     try:
         lfs = R.split_logical_files(R.parse_physical(res['data']))
-        m = M.Model(sp)
+        m = M.Model(S.flatten_shared_lists(sp))
         for i, (mlf, lf) in enumerate(zip(m.lfs, lfs)):
             errs = M.check_identity_and_refs(m, mlf, lf) + M.check_inventory(m, mlf, lf)
             errs += [(c, d) for c, d in M.check_attrs(m, mlf, lf) if c.split(':')[0] in REF_CODES]
